@@ -96,6 +96,81 @@ def fold_int(node, consts):
     return None
 
 
+def check_biginteger_sign_room(ctx, pt):
+    """BigInteger.write pads the magnitude bits to a multiple of 64 *with at least one leading zero* (room for the sign bit), for every bit length.
+    The padding statements are evaluated over bit lengths 1..192 by a tiny evaluator of the extracted arithmetic (lengths only, no values)."""
+    c = get_class(pt, 'BigInteger')
+    w = get_method(c, 'write')
+    site = '%s:%s BigInteger.write' % (PRIM, w.lineno)
+    body = [x for x in w.body if not (isinstance(x, ast.Expr) and isinstance(x.value, ast.Constant))]
+    # the prefix up to (excluding) the sign handling `if self.value < 0`
+    prefix = []
+    for st in body:
+        if isinstance(st, ast.If) and 'self.value' in U(st.test):
+            break
+        prefix.append(st)
+    var = None
+    if prefix and isinstance(prefix[0], ast.Assign) and isinstance(prefix[0].targets[0], ast.Name) and 'format' in U(prefix[0].value) and 'abs(self.value)' in U(prefix[0].value):
+        var = prefix[0].targets[0].id
+    if var is None:
+        raise AnalysisError('unrecognised construct: BigInteger.write does not start by formatting abs(self.value) as a bit string')
+
+    class Bits(int):
+        pass
+
+    def ev(e, env):
+        if isinstance(e, ast.Constant):
+            return e.value
+        if isinstance(e, ast.Name):
+            if e.id not in env:
+                raise AnalysisError('unrecognised construct in BigInteger.write padding: name %s' % e.id)
+            return env[e.id]
+        if isinstance(e, ast.Call) and call_name(e) == 'len' and len(e.args) == 1:
+            v = ev(e.args[0], env)
+            if isinstance(v, tuple):
+                return v[1]
+            raise AnalysisError('unrecognised construct: len(%s)' % U(e.args[0]))
+        if isinstance(e, ast.BinOp):
+            a, b = ev(e.left, env), ev(e.right, env)
+            if isinstance(e.op, ast.Mult) and isinstance(a, str) and isinstance(b, int):
+                return ('str', len(a) * max(b, 0))
+            if isinstance(e.op, ast.Mult) and isinstance(b, str) and isinstance(a, int):
+                return ('str', len(b) * max(a, 0))
+            if isinstance(e.op, ast.Add) and isinstance(a, tuple) and isinstance(b, tuple):
+                return ('str', a[1] + b[1])
+            if isinstance(a, int) and isinstance(b, int):
+                return {ast.Add: a + b, ast.Sub: a - b, ast.Mod: a % b if b else 0, ast.Mult: a * b, ast.FloorDiv: a // b if b else 0}[type(e.op)]
+        if isinstance(e, ast.Compare) and len(e.ops) == 1:
+            a, b = ev(e.left, env), ev(e.comparators[0], env)
+            return {ast.Eq: a == b, ast.NotEq: a != b, ast.Lt: a < b, ast.Gt: a > b, ast.LtE: a <= b, ast.GtE: a >= b}[type(e.ops[0])]
+        if isinstance(e, ast.UnaryOp) and isinstance(e.op, ast.Not):
+            return not ev(e.operand, env)
+        raise AnalysisError('unrecognised construct in BigInteger.write padding: %s' % U(e))
+
+    def run_block(stmts, env):
+        for st in stmts:
+            if isinstance(st, ast.Assign) and isinstance(st.targets[0], ast.Name):
+                env[st.targets[0].id] = ev(st.value, env)
+            elif isinstance(st, ast.AugAssign) and isinstance(st.target, ast.Name):
+                env[st.target.id] = ev(ast.BinOp(left=ast.Name(id=st.target.id, ctx=ast.Load()), op=st.op, right=st.value), env)
+            elif isinstance(st, ast.If):
+                t = ev(st.test, env)
+                if isinstance(t, tuple):
+                    t = t[1] > 0
+                run_block(st.body if t else st.orelse, env)
+            else:
+                raise AnalysisError('unrecognised construct in BigInteger.write padding: %s' % short(st))
+    bad = []
+    for L in range(1, 193):
+        env = {var: ('str', L)}
+        run_block(prefix[1:], env)
+        total = env[var][1]
+        if total % 64 != 0 or total <= L:
+            bad.append((L, total))
+    ctx.check(not bad, 'C01.R3', 'BigInteger.write|sign-room', site, 'for every magnitude bit length 1..192 the padded length is a multiple of 64 with at least one leading zero (sign bit)',
+              'the padded bit string leaves no room for the sign bit or is not a multiple of 64 bits for (bit length, padded length) = %s: such values decode with the wrong sign' % bad[:4])
+
+
 def run(ctx):
     src = ctx.src
     sch = Schema(src)
@@ -245,6 +320,8 @@ def run(ctx):
                         bad.append((res, pad))
                 ctx.check(not bad, 'C01.R3', '%s.%s|padding-arithmetic' % (c.name, mname), '%s:%s %s.%s' % (PRIM, s.lineno, c.name, mname), 'length + pad is a multiple of %d with 0 <= pad < %d for all residues' % (ps, ps),
                           'padding formula gives (length mod %d, pad) = %s: the encoding is not padded to a multiple of %d' % (ps, bad[:4], ps))
+
+    check_biginteger_sign_room(ctx, pt)
 
     # ---------------- R4 factories
     fm = FactoryModel(src, sch.ix)
